@@ -199,6 +199,7 @@ def stepOld (s : St) (op : Op) : St × Res :=
   | .createSub ph a => createSubOld s ph a
   | .deleteSub via r => deleteSub s via r
   | .createTopic ph n k => createTopicOld s ph n k
+  | .findTopic ph n k d => findTopicOp s ph n k d
   | .deleteTopic via r => deleteTopicOld s via r
   | .createCft r n _ => createCftOld s r n
   | .deleteCft ph n => deleteCftOld s ph n
